@@ -10,7 +10,7 @@ from ..core.shrink import Budget, ddmin_list
 from ..memsim.models import RefCache
 from . import gen as G
 from . import ir
-from .exec import run_ref, run_five, summary, REF_CAP
+from .exec import run_ref, run_five, summary, cache_counters, REF_CAP
 from .models import schedule, run_delayed
 
 SUMMARY_KEYS = ["regs", "mem", "output", "exit_code", "instruction_count", "branch_count", "procedure_count"]
@@ -210,9 +210,27 @@ def check_c02(trace, res: Result, hs: Hasher):
 
 def check_c07(trace, res: Result, hs: Hasher):
     dc, ic = _caches(trace)
-    ref = run_ref(trace, dc, ic)
+    per_step = []
+
+    def hook(sim, ins, i):
+        per_step.append((sim.state.performance_metrics.cycles,) + cache_counters(sim))
+
+    ref = run_ref(trace, dc, ic, hook=hook)
     recs = ref["recs"]
     n = len(recs)
+    # "each step advances the cycle counter by exactly one plus the miss penalties incurred in that step"
+    # holds for single-cycle steps as well
+    per_step.append((ref["sim"].state.performance_metrics.cycles,) + cache_counters(ref["sim"]))
+    if not ref["exc"]:
+        for i in range(len(per_step) - 1):
+            a, b = per_step[i], per_step[i + 1]
+            dmiss = ((b[1] or 0) - (a[1] or 0)) - ((b[2] or 0) - (a[2] or 0))
+            imiss = ((b[3] or 0) - (a[3] or 0)) - ((b[4] or 0) - (a[4] or 0))
+            want = 1 + (dc["pen"] if dc else 0) * dmiss + (ic["pen"] if ic else 0) * imiss
+            if b[0] - a[0] != want:
+                res.violate("C07", "cycle-delta", at=i + 1, expected=want, got=b[0] - a[0], mode="single",
+                            data_misses=dmiss, instr_misses=imiss)
+                return
     five = run_five(trace, True, dc, ic, max_ticks=_tick_cap(n), stop_after_retired=n if ref["capped"] else None)
     _hash_ticks(hs, five["ticks"])
     _cover(res, five)
@@ -329,7 +347,7 @@ def check_c08(trace, res: Result, hs: Hasher):
         return
     # (3) nop-padded program == single-cycle mode
     padded = ir.pad_with_nops(trace["prog"], 2)
-    ref2 = run_ref(trace, dc, ic, cap=3 * REF_CAP, prog=padded)
+    ref2 = run_ref(trace, dc, ic, cap=3 * trace["cfg"].get("cap", REF_CAP), prog=padded)
     if ref2["capped"]:
         res.probes["padded program hit the step cap (clause skipped)"] += 1
         return
@@ -715,7 +733,8 @@ class Programs(Batch):
     engine = "pipesim"
     per_run_timeout_s = 30.0
 
-    def __init__(self, name, runs_quick, runs_thorough, faults=True, force_shape=None, force=None, fault_rate=0.25):
+    def __init__(self, name, runs_quick, runs_thorough, faults=True, force_shape=None, force=None, fault_rate=0.25, long=False):
+        self.long = long
         self.name = name
         self.runs_quick = runs_quick
         self.runs_thorough = runs_thorough
@@ -725,7 +744,7 @@ class Programs(Batch):
         self.fault_rate = fault_rate
 
     def generate(self, seed):
-        t = G.generate(seed, self.faults, self.force_shape, self.fault_rate)
+        t = G.generate(seed, self.faults, self.force_shape, self.fault_rate, self.long)
         t["cfg"].update(self.force)
         return t
 
